@@ -95,13 +95,14 @@ func walkFS(ctx context.Context, fsys apkfs.FullFS) iter.Seq2[*file, error] {
 			if err := ctx.Err(); err != nil {
 				return err
 			}
+			// an error reported by fs.WalkDir (also for the root: Stat or ReadDir of "." failed)
+			if err != nil {
+				return err
+			}
+
 			// skip the root path, superfluous
 			if path == "." {
 				return nil
-			}
-
-			if err != nil {
-				return err
 			}
 
 			info, err := d.Info()
